@@ -380,6 +380,7 @@ reg(Check("C14", "model_checking",
                  Part("at-load", SRV, "^TestVerifC14AtLoad$", instr=True, shards=(16, 16), deadline=(300, 1200))]))
 
 reg(Check("C10", "model_checking",
+          "pres-at-load: the partner attaching to / leaving its own 'me' handled completely at every store-call boundary and atomic operation of the user's {sub me} (with and without {get sub}), under both select preferences; convergence judged after 20 s. " 
           "pres: BFS to depth 6 (quick) / 7 (thorough) over 20 operations (two users a, b with a p2p topic and a shared group, a stranger c; a has "
           "two sessions: attach / leave 'me', disconnect + reconnect, mute / unmute the partner, attach / leave the p2p topic and the group, a 20 s "
           "clock tick which unloads idle topics and fires deferred notifications); after every step each attached session's last belief about its "
@@ -401,7 +402,8 @@ reg(Check("C10", "model_checking",
                  Part("p2p", SRV, "^TestVerifC10P2P$", instr=True, gomaxprocs=16, deadline=(300, 2400)),
                  Part("races", SRV, "^TestVerifC10Races$", instr=True, shards=(16, 16), deadline=(300, 3000)),
                  Part("presraces", SRV, "^TestVerifC10PresRaces$", instr=True, shards=(16, 16), deadline=(300, 3000)),
-                 Part("notifications", SRV, "^TestVerifC10Notifications$", instr=True, gomaxprocs=16, deadline=(300, 2400))]))
+                 Part("notifications", SRV, "^TestVerifC10Notifications$", instr=True, gomaxprocs=16, deadline=(300, 2400)),
+                 Part("pres-at-load", SRV, "^TestVerifC10PresAtLoad$", instr=True, shards=(16, 16), deadline=(300, 1200))]))
 
 reg(Check("C15", "model_checking",
           "BFS over 5 invitations (caller's two sessions, callee, outsider, group), 27 call events (ringing/accept/offer/answer/candidate/hang-up from "
